@@ -94,6 +94,36 @@ class Interchain(Family):
             for t in collect(od):
                 t["src"] = "model-guided (tlc -simulate)"
                 traces.append(t)
+        if prop in ("C03", "C04", "C06", "C02", "C16"):
+            # model-guided walks of the machine between two BitXHubs (InterchainXGen.tla): signer sequences become real
+            # multi-signature proofs, hub status changes become real freeze / activate proposals
+            walks = tlc_simulate_plans(ctx.sdir, "InterchainXGen.tla", "InterchainXGen.cfg", 40 if q else 1000, 26, ctx.seed * 5 + 2)
+            smap = {"1:a:s": "chainA:svc1", "1:b:s": "chainB:svc1", "9:x:s": "9999:chainX:svcX", "9:y:s": "9999:chainY:svcY"}
+            plans = []
+            for j, ops in enumerate(walks):
+                steps = []
+                for op in ops:
+                    if op["op"] == "empty":
+                        steps.append({"step": "empty", "n": 1})
+                    elif op["op"] == "hub":
+                        steps.append({"step": "gov", "m": "ActivateAppchain" if op["to"] == "available" else "FreezeAppchain", "obj": "9999", "ok": True})
+                    else:
+                        tx = {"k": "ibtp", "src": smap[op["src"]], "dst": smap[op["dst"]], "idx": op["idx"], "typ": op["typ"], "t": op["T"], "from": "u1",
+                              "notice": op["notice"]}
+                        if op["ms"]:
+                            tx["ms"] = True
+                            tx["sigs"] = [x["who"] + ("" if x["over"] in ("this", "junk") else "!" + x["over"]) for x in op["sigs"]]
+                            tx["msstatus"] = 3 if op["typ"] == "OK" else 0
+                        steps.append({"step": "block", "txs": [tx]})
+                plans.append({"name": "xmodel-%d-%d" % (ctx.seed, j), "audit": j % 3 == 0, "seed": 1, "prooftype": ["serial", "parallel"][j % 2], "chains": ["chainA", "chainB"],
+                              "nsvc": 1, "black": {}, "relay": {"id": "9999", "vals": ["v0", "v1", "v2", "v3"]}, "steps": steps})
+            pf = os.path.join(ctx.dir, "xmodel-plans.json")
+            json.dump(plans, open(pf, "w"))
+            od = os.path.join(ctx.dir, "t-xmodel")
+            run_adapter_resilient(ctx.bin, ["-plans", pf], od, env, "interadp")
+            for t in collect(od):
+                t["src"] = "model-guided, two hubs (tlc -simulate)"
+                traces.append(t)
         modes = [("", n), ("group", n // 2 if prop != "C05" else n), ("timed", n // 2 if prop not in ("C04", "C06") else n)]
         if prop == "C03":
             modes = [("xhub", n), ("rules", n // 2), ("", n // 2), ("lifecycle", n // 4)]
